@@ -29,6 +29,14 @@ impl<'a> Rel<'a> {
     }
 }
 
+/// Evaluates a relation instance under the panic recorder: a panic is a failed relation.
+fn g(f: impl FnOnce() -> bool) -> (bool, Option<String>) {
+    match catch(f) {
+        Ok(b) => (b, None),
+        Err(p) => (false, Some(p)),
+    }
+}
+
 pub fn run(_ctx: &Ctx) -> Report {
     let mut report = Report::new();
     report.rule = "every instance of every relation named by the property is enumerated once (card<->bit, card<->text, all 1- and 2-character ASCII strings, rank/suit<->number<->char, Ord, next/prev, every start<=end endpoint pair of RankRange/SuitRange); distinct = distinct (relation,input) pairs".into();
@@ -73,7 +81,7 @@ pub fn run(_ctx: &Ctx) -> Report {
     for id in 0..52u8 {
         let c = card(id);
         let name = card_text(id);
-        let t = c.to_string();
+        let t = catch(|| c.to_string()).unwrap_or_else(|p| format!("<panic {}>", p));
         r.check("card_to_text", &name, t == name, || format!("formats as '{}'", t));
         r.check("card_text_distinct", &name, texts.insert(t.clone()), || "text already used".into());
         let back = catch(|| t.parse::<Card>());
@@ -107,64 +115,87 @@ pub fn run(_ctx: &Ctx) -> Report {
     // ---- ranks
     for (i, rank) in RANKS.iter().enumerate() {
         let name = RANK_CHARS[i].to_string();
-        r.check("rank_to_u8", &name, u8::from(*rank) == i as u8 && u8::from(rank) == i as u8, || format!("{}", u8::from(*rank)));
-        r.check("rank_to_char", &name, char::from(*rank) == RANK_CHARS[i] && char::from(rank) == RANK_CHARS[i], || format!("{}", char::from(*rank)));
-        r.check("rank_display", &name, rank.to_string() == name, || rank.to_string());
-        r.check("char_to_rank", &name, Rank::try_from(RANK_CHARS[i]) == Ok(*rank) && Rank::try_from(&RANK_CHARS[i]) == Ok(*rank), || format!("{:?}", Rank::try_from(RANK_CHARS[i])));
-        r.check("str_to_rank", &name, name.parse::<Rank>() == Ok(*rank), || format!("{:?}", name.parse::<Rank>()));
+        let (ok, p) = g(|| u8::from(*rank) == i as u8 && u8::from(rank) == i as u8);
+        r.check("rank_to_u8", &name, ok, || p.unwrap_or_else(|| format!("{}", u8::from(*rank))));
+        let (ok, p) = g(|| char::from(*rank) == RANK_CHARS[i] && char::from(rank) == RANK_CHARS[i]);
+        r.check("rank_to_char", &name, ok, || p.unwrap_or_else(|| format!("{}", char::from(*rank))));
+        let (ok, p) = g(|| rank.to_string() == name);
+        r.check("rank_display", &name, ok, || p.unwrap_or_else(|| rank.to_string()));
+        let (ok, p) = g(|| Rank::try_from(RANK_CHARS[i]) == Ok(*rank) && Rank::try_from(&RANK_CHARS[i]) == Ok(*rank));
+        r.check("char_to_rank", &name, ok, || p.unwrap_or_else(|| format!("{:?}", Rank::try_from(RANK_CHARS[i]))));
+        let (ok, p) = g(|| name.parse::<Rank>() == Ok(*rank));
+        r.check("str_to_rank", &name, ok, || p.unwrap_or_else(|| format!("{:?}", name.parse::<Rank>())));
         let next = if i < 12 { Some(RANKS[i + 1]) } else { None };
         let prev = if i > 0 { Some(RANKS[i - 1]) } else { None };
-        r.check("rank_next", &name, rank.next() == next, || format!("{:?}", rank.next()));
-        r.check("rank_prev", &name, rank.prev() == prev, || format!("{:?}", rank.prev()));
+        let (ok, p) = g(|| rank.next() == next);
+        r.check("rank_next", &name, ok, || p.unwrap_or_else(|| format!("{:?}", rank.next())));
+        let (ok, p) = g(|| rank.prev() == prev);
+        r.check("rank_prev", &name, ok, || p.unwrap_or_else(|| format!("{:?}", rank.prev())));
         for (j, other) in RANKS.iter().enumerate() {
             let pair = format!("{}{}", RANK_CHARS[i], RANK_CHARS[j]);
-            let ok = rank.cmp(other) == i.cmp(&j)
-                && rank.partial_cmp(other) == Some(i.cmp(&j))
-                && (rank < other) == (i < j)
-                && (rank == other) == (i == j);
-            r.check("rank_order", &pair, ok, || format!("{:?}", rank.cmp(other)));
+            let (ok, p) = g(|| {
+                rank.cmp(other) == i.cmp(&j)
+                    && rank.partial_cmp(other) == Some(i.cmp(&j))
+                    && (rank < other) == (i < j)
+                    && (rank == other) == (i == j)
+            });
+            r.check("rank_order", &pair, ok, || p.unwrap_or_else(|| format!("{:?}", rank.cmp(other))));
         }
     }
     for a in 0..=0x2ffu32 {
         if let Some(ch) = char::from_u32(a) {
             let expected = RANK_CHARS.iter().position(|c| *c == ch).map(|i| RANKS[i]);
-            let got = Rank::try_from(ch).ok();
-            r.check("char_to_rank_total", &format!("{:04x}", a), got == expected, || format!("{:?}", got));
+            let got = catch(|| Rank::try_from(ch).ok());
+            r.check("char_to_rank_total", &format!("{:04x}", a), got == Ok(expected), || format!("{:?}", got));
+            let from_str = catch(|| ch.to_string().parse::<Rank>().ok());
+            r.check("str_to_rank_total", &format!("{:04x}", a), from_str == Ok(expected), || format!("{:?}", from_str));
             let expected_s = SUIT_CHARS.iter().position(|c| *c == ch).map(|i| SUITS[i]);
-            let got_s = Suit::try_from(ch).ok();
-            r.check("char_to_suit_total", &format!("{:04x}", a), got_s == expected_s, || format!("{:?}", got_s));
+            let got_s = catch(|| Suit::try_from(ch).ok());
+            r.check("char_to_suit_total", &format!("{:04x}", a), got_s == Ok(expected_s), || format!("{:?}", got_s));
+            let from_str_s = catch(|| ch.to_string().parse::<Suit>().ok());
+            r.check("str_to_suit_total", &format!("{:04x}", a), from_str_s == Ok(expected_s), || format!("{:?}", from_str_s));
         }
     }
 
     // ---- suits
     for (i, suit) in SUITS.iter().enumerate() {
         let name = SUIT_CHARS[i].to_string();
-        r.check("suit_to_u8", &name, u8::from(*suit) == i as u8 && u8::from(suit) == i as u8, || format!("{}", u8::from(*suit)));
-        r.check("suit_to_char", &name, char::from(*suit) == SUIT_CHARS[i] && char::from(suit) == SUIT_CHARS[i], || format!("{}", char::from(*suit)));
-        r.check("suit_display", &name, suit.to_string() == name, || suit.to_string());
-        r.check("char_to_suit", &name, Suit::try_from(SUIT_CHARS[i]) == Ok(*suit) && Suit::try_from(&SUIT_CHARS[i]) == Ok(*suit), || format!("{:?}", Suit::try_from(SUIT_CHARS[i])));
-        r.check("str_to_suit", &name, name.parse::<Suit>() == Ok(*suit), || format!("{:?}", name.parse::<Suit>()));
+        let (ok, p) = g(|| u8::from(*suit) == i as u8 && u8::from(suit) == i as u8);
+        r.check("suit_to_u8", &name, ok, || p.unwrap_or_else(|| format!("{}", u8::from(*suit))));
+        let (ok, p) = g(|| char::from(*suit) == SUIT_CHARS[i] && char::from(suit) == SUIT_CHARS[i]);
+        r.check("suit_to_char", &name, ok, || p.unwrap_or_else(|| format!("{}", char::from(*suit))));
+        let (ok, p) = g(|| suit.to_string() == name);
+        r.check("suit_display", &name, ok, || p.unwrap_or_else(|| suit.to_string()));
+        let (ok, p) = g(|| Suit::try_from(SUIT_CHARS[i]) == Ok(*suit) && Suit::try_from(&SUIT_CHARS[i]) == Ok(*suit));
+        r.check("char_to_suit", &name, ok, || p.unwrap_or_else(|| format!("{:?}", Suit::try_from(SUIT_CHARS[i]))));
+        let (ok, p) = g(|| name.parse::<Suit>() == Ok(*suit));
+        r.check("str_to_suit", &name, ok, || p.unwrap_or_else(|| format!("{:?}", name.parse::<Suit>())));
         for (j, other) in SUITS.iter().enumerate() {
             let pair = format!("{}{}", SUIT_CHARS[i], SUIT_CHARS[j]);
-            let ok = suit.cmp(other) == i.cmp(&j)
-                && suit.partial_cmp(other) == Some(i.cmp(&j))
-                && (suit < other) == (i < j)
-                && (suit == other) == (i == j);
-            r.check("suit_order", &pair, ok, || format!("{:?}", suit.cmp(other)));
+            let (ok, p) = g(|| {
+                suit.cmp(other) == i.cmp(&j)
+                    && suit.partial_cmp(other) == Some(i.cmp(&j))
+                    && (suit < other) == (i < j)
+                    && (suit == other) == (i == j)
+            });
+            r.check("suit_order", &pair, ok, || p.unwrap_or_else(|| format!("{:?}", suit.cmp(other))));
         }
     }
 
     // ---- card order = (rank, suit) lexicographic = id order; accessors
     for a in 0..52u8 {
         let ca = card(a);
-        r.check("card_accessors", &card_text(a), *ca.rank() == RANKS[(a / 4) as usize] && *ca.suit() == SUITS[(a % 4) as usize], || format!("{:?} {:?}", ca.rank(), ca.suit()));
+        let (ok, p) = g(|| *ca.rank() == RANKS[(a / 4) as usize] && *ca.suit() == SUITS[(a % 4) as usize]);
+        r.check("card_accessors", &card_text(a), ok, || p.unwrap_or_else(|| format!("{:?} {:?}", ca.rank(), ca.suit())));
         for b in 0..52u8 {
             let cb = card(b);
-            let ok = ca.cmp(&cb) == a.cmp(&b)
-                && ca.partial_cmp(&cb) == Some(a.cmp(&b))
-                && (ca < cb) == (a < b)
-                && (ca == cb) == (a == b);
-            r.check("card_order", &format!("{}{}", card_text(a), card_text(b)), ok, || format!("{:?}", ca.cmp(&cb)));
+            let (ok, p) = g(|| {
+                ca.cmp(&cb) == a.cmp(&b)
+                    && ca.partial_cmp(&cb) == Some(a.cmp(&b))
+                    && (ca < cb) == (a < b)
+                    && (ca == cb) == (a == b)
+            });
+            r.check("card_order", &format!("{}{}", card_text(a), card_text(b)), ok, || p.unwrap_or_else(|| format!("{:?}", ca.cmp(&cb))));
         }
     }
 
@@ -192,9 +223,9 @@ pub fn run(_ctx: &Ctx) -> Report {
     let got = catch(|| SuitRange::all().into_iter().collect::<Vec<_>>());
     r.check("suit_range_all", "all", got.as_deref() == Ok(&SUITS[..]), || format!("{:?}", got));
 
-    report.sample(Json::obj().set("relation", Json::str("card_to_bit")).set("input", Json::str("As")).set("observed", Json::str(format!("{:#x}", u64::from(card(0))))));
-    report.sample(Json::obj().set("relation", Json::str("card_to_bit")).set("input", Json::str("2c")).set("observed", Json::str(format!("{:#x}", u64::from(card(51))))));
-    report.sample(Json::obj().set("relation", Json::str("ascii2_exactly_the_52")).set("input", Json::str("Td")).set("observed", Json::str(format!("{:?}", "Td".parse::<Card>().ok()))));
-    report.sample(Json::obj().set("relation", Json::str("rank_range_inclusive")).set("input", Json::str("Q7")).set("observed", Json::str(format!("{:?}", RankRange::inclusive(Rank::Queen, Rank::Seven).into_iter().collect::<Vec<_>>()))));
+    report.sample(Json::obj().set("relation", Json::str("card_to_bit")).set("input", Json::str("As")).set("observed", Json::str(format!("{:?}", catch(|| format!("{:#x}", u64::from(card(0))))))));
+    report.sample(Json::obj().set("relation", Json::str("card_to_bit")).set("input", Json::str("2c")).set("observed", Json::str(format!("{:?}", catch(|| format!("{:#x}", u64::from(card(51))))))));
+    report.sample(Json::obj().set("relation", Json::str("ascii2_exactly_the_52")).set("input", Json::str("Td")).set("observed", Json::str(format!("{:?}", catch(|| "Td".parse::<Card>().ok())))));
+    report.sample(Json::obj().set("relation", Json::str("rank_range_inclusive")).set("input", Json::str("Q7")).set("observed", Json::str(format!("{:?}", catch(|| RankRange::inclusive(Rank::Queen, Rank::Seven).into_iter().collect::<Vec<_>>())))));
     report
 }
